@@ -1168,6 +1168,11 @@ func (e *Exec) applyModSet(ms *modSet, h *Heap) {
 		for _, n := range ms.named {
 			names = append(names, e.resolveCompName(n))
 		}
+		for gname := range ms.ghosts {
+			if _, ok := e.compSort[gname]; ok {
+				names = append(names, gname)
+			}
+		}
 		if ms.hasExpr {
 			for c := range e.compSort {
 				if strings.HasPrefix(c, "G|") {
